@@ -33,12 +33,33 @@ RULE = ("cases = (route, host text); non-trivial = the canonical host differs fr
 ASSUMPTIONS = ["host canonicalisation is label-local, so words of <= 3 letters over the label alphabet cover it"]
 
 SUB = list("!$&'()*+,;=")
-ALPHA = ["a", "A", "0", "-", ".", "_", "~", "%41", "%2f", "é", "É", "ß", "İ", "☃", "xn--", "１", "xn--9ca", "XN--9CA"] + SUB
-ROUTES = ["ctor", "build_host", "build_authority", "with_host", "with_host_same"]
+ALPHA = ["a", "A", "0", "-", ".", "_", "~", "%41", "%2f", "é", "É", "ß", "İ", "☃", "xn--", "１", "xn--9ca", "XN--9CA",
+         "\uff41", "e\u0301", "\xad"] + SUB   # UTS-46 *maps* these lower-case spellings: fullwidth a -> a, decomposed accent -> é, soft hyphen -> nothing
+ROUTES = ["ctor", "build_host", "build_authority", "with_host", "with_host_same", "build_host~enum", "with_host~enum"]
+
+
+class _EnumLike(str):
+    """a str whose str()/format() is NOT its value - what a str-mixin Enum member is since Python 3.11/3.12 (Host.API -> 'Host.API')"""
+
+    def __str__(self):
+        return "Host.MEMBER"
+
+    def __format__(self, spec):
+        return "Host.MEMBER"
+
+    __repr__ = __str__
 
 
 def call(route, text):
     U = impl.URL
+    if route.endswith("~enum"):
+        # the host as such an object, then the very same text as a plain str (which must not meet anything left behind by the first)
+        route = route[:-5]
+        u = call(route, _EnumLike(text))
+        v = call(route, text)
+        if tuple(u.__getstate__()[0]) != tuple(v.__getstate__()[0]) or any(type(x) is not str for x in u.__getstate__()[0]):
+            raise AssertionError("host given as a str-subclass instance is stored as %r, as a plain str as %r" % (u.__getstate__()[0], v.__getstate__()[0]))
+        return v
     if route == "ctor":
         return U("http://" + (("[" + text + "]") if ":" in text and not text.startswith("[") else text) + "/p")
     if route == "build_host":
@@ -84,23 +105,57 @@ def ref_canonical(text):
     return c
 
 
-def case_host(acc, route, text):
+def ref_decoded(rh):
+    """The decoded host is a function of the raw host alone: IDNA-decode of a reg-name (2008, else the 2003 codec), IP literals as is.
+    Returns the set of acceptable values (names that end in a digit may be taken for an address and left undecoded)."""
+    import idna
+    if ":" in rh:
+        return {rh}
+    try:
+        dec = idna.decode(rh.encode("ascii"))
+    except UnicodeError:
+        dec = rh.encode("ascii").decode("idna")
+    return {dec, rh} if rh[-1:].isdigit() else {dec}
+
+
+def case_host_pair(acc, route, first, text):
+    """Two spellings of one host, one after the other, starting from empty lru caches: what the second gives must not depend on the
+    first having been seen (a process-wide memo keyed by the encoded host would show here)."""
+    impl.clear_all_caches()
+    try:
+        ua = call(route, first)
+        ua.host, str(ua), ua.host_subcomponent
+    except Exception:  # noqa: BLE001 - judged by the single-host case
+        pass
+    return case_host(acc, route, text, ("pair", (route, first, text)))
+
+
+def case_host(acc, route, text, report=None):
     acc.evals += 1
+    casename, caseargs = report or ("host", (route, text))
     exp = ref_canonical(text)
-    validating = route in ("build_host", "with_host", "with_host_same")
+    validating = route.split("~")[0] in ("build_host", "with_host", "with_host_same")
     try:
         u = call(route, text)
     except ValueError:
+        if route.endswith("~enum") and ":" in text:
+            # the stdlib ipaddress module reads its argument through str(): an IPv6 literal handed over as such an object is not
+            # recognised as an address (unchanged tree); outside what the statement fixes
+            acc.count("enum_like_ipv6_literal_rejected_not_judged")
+            return None
         if exp != text:
             acc.nontrivial += 1
         if exp is not None and route != "ctor" or (exp is not None and route == "ctor"):
             # a host the reference accepts was rejected.  IDNA corner cases (labels the idna package rejects and the
             # fallback codec rejects too) are already None in the reference, so this is a real disagreement.
-            acc.viol("host", (route, text), observed="ValueError", expected=exp,
+            acc.viol(casename, caseargs, observed="ValueError", expected=exp,
                      msg="%s(%r) rejected, reference canonical host is %r" % (route, text, exp))
         return None
     except TypeError:
         acc.count("type_rejected")
+        return None
+    except AssertionError as e:
+        acc.viol(casename, caseargs, observed=str(e), expected=exp, msg="%s(%r): %s" % (route, text, e))
         return None
     except Exception:  # noqa: BLE001 (C19)
         acc.count("other_exception")
@@ -148,6 +203,13 @@ def case_host(acc, route, text):
                 probs.append("userinfo changed to %r:%r" % (ru, rp))
             if not route.startswith("with_host") and (ru, rp) != (None, None):
                 probs.append("userinfo appeared: %r:%r" % (ru, rp))
+            if dec is not None:
+                try:
+                    want_dec = ref_decoded(rh)
+                except UnicodeError:
+                    want_dec = {dec}
+                if dec not in want_dec:
+                    probs.append("host %r is not the decoding of raw_host %r (%s)" % (dec, rh, " or ".join(map(repr, sorted(want_dec)))))
             # idempotence of encoding and decode->encode round trip
             try:
                 again = impl.URL("http://" + want + "/").raw_host
@@ -165,7 +227,7 @@ def case_host(acc, route, text):
             except (ValueError, TypeError) as e:
                 probs.append("re-encoding the canonical host raised %r" % (e,))
     if probs:
-        acc.viol("host", (route, text), observed={"raw_host": rh, "problems": probs}, expected=exp,
+        acc.viol(casename, caseargs, observed={"raw_host": rh, "problems": probs}, expected=exp,
                  msg="%s(%r): %s" % (route, text, "; ".join(probs)))
     return rh
 
@@ -233,7 +295,7 @@ def case_nfkc(acc, position, cp):
     return s
 
 
-CASES = {"host": case_host, "nfkc": case_nfkc}
+CASES = {"host": case_host, "nfkc": case_nfkc, "pair": case_host_pair}
 NFKC_POSITIONS = ["ctor_host", "ctor_userinfo", "ctor_password", "ctor_port", "build_authority", "build_authority_userinfo", "build_host", "with_host"]
 
 
@@ -266,6 +328,43 @@ def task_regnames(route, maxlen, first):
     acc.state_count = len(states)
     if last:
         acc.sample({"route": route, "host": last[0], "raw_host": last[1], "backend": impl.backend}, 1)
+    return acc.result()
+
+
+GROUP_CAP = 8
+
+
+def task_equiv(route, maxlen, part, nparts):
+    """Every ordered pair of different spellings that the reference maps to the same canonical host (groups of at most GROUP_CAP
+    spellings; larger groups are cut and counted)."""
+    acc = Acc(ID, impl.backend)
+    groups = {}
+    for n in range(1, maxlen + 1):
+        for t in itertools.product(ALPHA, repeat=n):
+            w = "".join(t)
+            for text in (w, w + ".com"):
+                c = ref_canonical(text)
+                if c is not None:
+                    groups.setdefault(c, []).append(text)
+    keys = sorted(k for k, v in groups.items() if len(set(v)) > 1)
+    states = set()
+    last = None
+    for k in keys[part::nparts]:
+        members = list(dict.fromkeys(groups[k]))
+        if len(members) > GROUP_CAP:
+            acc.count("equivalence_groups_cut_to_%d_spellings" % GROUP_CAP)
+            members = members[:GROUP_CAP // 2] + members[-GROUP_CAP // 2:]
+        for a in members:
+            for b in members:
+                if a != b:
+                    r = case_host_pair(acc, route, a, b)
+                    if r is not None:
+                        states.add((a, b, r))
+                        last = (a, b, r)
+    acc.state_count = len(states)
+    acc.counters["equivalence_groups"] = len(keys[part::nparts])
+    if last:
+        acc.sample({"route": route, "first_spelling": last[0], "second_spelling": last[1], "raw_host": last[2], "backend": impl.backend}, 1)
     return acc.result()
 
 
@@ -308,6 +407,8 @@ def plan(ctx):
             for first in range(-1, len(ALPHA)):
                 tasks.append(("checks.C16", "task_regnames", (route, k, first), b, "r"))
             tasks.append(("checks.C16", "task_ascii_and_ips", (route,), b, "a"))
+            for part in range(4):
+                tasks.append(("checks.C16", "task_equiv", (route, 2, part, 4), b, "e"))
         for pos in NFKC_POSITIONS:
             tasks.append(("checks.C16", "task_nfkc", (pos,), b, "n"))
     ctx.notes["bounds"] = {"host_alphabet": ALPHA, "max_word_length": k, "routes": ROUTES, "nfkc_positions": NFKC_POSITIONS,
